@@ -181,6 +181,9 @@ type vfC15Iter struct {
 	panics   []string
 	mu       sync.Mutex
 	deadlock string // goroutine dump of a deadlock found under controlled scheduling
+	lateB    bool   // emitter e3 (type B) is created only after subscribers of B have come and gone: the node
+	// of B is created by subscribers, may be dropped and re-created; such a run is judged by the monitors only
+	// (the trace specification has every emitter from the start)
 }
 
 func (it *vfC15Iter) guard(where string) {
@@ -234,7 +237,15 @@ func vfC15Plan(rnd *rand.Rand) (map[string]int, []vfC15SubPlan, map[string]bool)
 				p.buf = 32
 			}
 		}
-		p.stable = rnd.Intn(2) == 0
+		lateSet := p.late
+		p.stable = rnd.Intn(2) == 0 || lateSet
+		if !p.wildcard && len(vfC15SubTypes[p.id]) == 1 && rnd.Intn(4) == 0 {
+			// a single-type subscriber that joins after every emitter has finished: only a retained event can arrive
+			p.late, p.stable, p.stopRead = true, true, false
+			if p.buf == 0 {
+				p.buf = 1
+			}
+		}
 		p.startYield = rnd.Intn(6)
 		p.closeAfter = rnd.Intn(5)
 		p.slow = rnd.Intn(3) == 0
@@ -253,13 +264,24 @@ func (it *vfC15Iter) run(perturb int) bool {
 	it.eclose = map[string]int64{}
 	bus := NewBus()
 	ems := map[string]event.Emitter{}
-	for _, e := range vfC15Emitters {
+	var emsMu sync.Mutex
+	crnd := rand.New(rand.NewSource(it.seed ^ 0x7f4a7c15))
+	it.lateB = crnd.Intn(3) == 0
+	lateYield := crnd.Intn(60)
+	// a type is stateful as soon as ONE of its emitters asked for it: e2 (type A) is a plain emitter in
+	// half of the runs, created before or after the stateful e1
+	e2Plain := crnd.Intn(2) == 0
+	order := append([]string(nil), vfC15Emitters...)
+	crnd.Shuffle(len(order), func(i, j int) { order[i], order[j] = order[j], order[i] })
+	mkEm := func(e string) event.Emitter {
 		var em event.Emitter
 		var err error
-		switch vfC15EmTyp[e] {
-		case "A":
+		switch {
+		case vfC15EmTyp[e] == "A" && e == "e2" && e2Plain:
+			em, err = bus.Emitter(new(vfC15EvA))
+		case vfC15EmTyp[e] == "A":
 			em, err = bus.Emitter(new(vfC15EvA), Stateful)
-		case "C":
+		case vfC15EmTyp[e] == "C":
 			em, err = bus.Emitter(new(vfC15EvC), Stateful)
 		default:
 			em, err = bus.Emitter(new(vfC15EvB))
@@ -267,8 +289,14 @@ func (it *vfC15Iter) run(perturb int) bool {
 		if err != nil {
 			panic(err)
 		}
-		ems[e] = em
+		return em
+	}
+	for _, e := range order {
 		it.emits[e] = make([]vfC15Emit, nev[e])
+		if e == "e3" && it.lateB {
+			continue
+		}
+		ems[e] = mkEm(e)
 	}
 	if perturb == 4 {
 		it.rec.perturb = 0
@@ -293,16 +321,25 @@ func (it *vfC15Iter) run(perturb int) bool {
 			defer emWG.Done()
 			defer it.guard("emitter " + e)
 			<-startEmit
+			emsMu.Lock()
+			em := ems[e]
+			emsMu.Unlock()
+			if e == "e3" && it.lateB {
+				for i := 0; i < lateYield; i++ {
+					it.rec.pause()
+				}
+				em = mkEm(e)
+			}
 			for n := 1; n <= nev[e]; n++ {
 				c := it.rec.emit(map[string]any{"ev": "emit_call", "e": e, "n": n})
 				var err error
 				switch vfC15EmTyp[e] {
 				case "A":
-					err = ems[e].Emit(vfC15EvA{E: e, N: n})
+					err = em.Emit(vfC15EvA{E: e, N: n})
 				case "C":
-					err = ems[e].Emit(vfC15EvC{E: e, N: n})
+					err = em.Emit(vfC15EvC{E: e, N: n})
 				default:
-					err = ems[e].Emit(vfC15EvB{E: e, N: n})
+					err = em.Emit(vfC15EvB{E: e, N: n})
 				}
 				r := it.rec.emit(map[string]any{"ev": "emit_ret", "e": e, "n": n})
 				if err != nil {
@@ -313,7 +350,7 @@ func (it *vfC15Iter) run(perturb int) bool {
 			if closeEm[e] {
 				// the decrement of nEmitters happens inside Close: log the intent first
 				s := it.rec.emit(map[string]any{"ev": "eclose", "e": e})
-				ems[e].Close()
+				em.Close()
 				it.mu.Lock()
 				it.eclose[e] = s
 				it.mu.Unlock()
@@ -594,19 +631,34 @@ func (it *vfC15Iter) check() [][2]string {
 			}
 			cands := map[string]bool{}
 			must := false
+			// events of the type (whichever emitter) completed before Subscribe began: the retained one is
+			// one that no other completed event of the type strictly follows (call after its return)
+			type doneEv struct {
+				key       string
+				call, ret int64
+			}
+			var done []doneEv
 			for _, e := range sems {
-				best := 0
 				for i, em := range it.emits[e] {
 					if em.ret != 0 && em.ret < st.subCall {
-						best = i + 1 // completed before Subscribe began
+						done = append(done, doneEv{fmt.Sprintf("%s#%d", e, i+1), em.call, em.ret})
 						must = true
 					}
 					if em.call != 0 && em.call < st.subRet && (em.ret == 0 || em.ret > st.subCall) {
 						cands[fmt.Sprintf("%s#%d", e, i+1)] = true // overlapped the Subscribe call
 					}
 				}
-				if best > 0 {
-					cands[fmt.Sprintf("%s#%d", e, best)] = true
+			}
+			for _, x := range done {
+				followed := false
+				for _, y := range done {
+					if y.call > x.ret {
+						followed = true
+						break
+					}
+				}
+				if !followed {
+					cands[x.key] = true
 				}
 			}
 			var first *vfC15Recv
@@ -696,7 +748,7 @@ func TestVerifC15Stress(t *testing.T) {
 		for _, b := range bad {
 			res.AddMismatch(vfh.Mismatch{Class: b[0], What: b[1], Walk: i, Step: -1, Cfg: map[string]any{"seed": it.seed, "perturb": i % 5}, Prefix: it.events()})
 		}
-		if tracePath != "" && (kept < traceKeep || len(bad) > 0) {
+		if tracePath != "" && !it.lateB && (kept < traceKeep || len(bad) > 0) {
 			kept++
 			tr := vfh.NewTrace(fmt.Sprintf("it%d", i))
 			if err := vfC15Append(tracePath, fmt.Sprintf("it%d", i), it.seed, it.events()); err != nil {
